@@ -28,6 +28,8 @@ impl Failure {
 #[derive(Default, Clone)]
 pub struct Collector {
     pub evals: u64,
+    /// generated cases (evals may additionally count sub-evaluations inside a case)
+    pub cases: u64,
     pub classes: BTreeMap<String, u64>,
     pub nontrivial: HashSet<u64>,
     pub samples: Vec<Value>,
@@ -40,6 +42,7 @@ impl Collector {
     pub fn eval(&mut self) {
         if !self.frozen {
             self.evals += 1;
+            self.cases += 1;
         }
     }
     pub fn evals_add(&mut self, n: u64) {
@@ -77,6 +80,7 @@ impl Collector {
     }
     pub fn merge(&mut self, o: Collector) {
         self.evals += o.evals;
+        self.cases += o.cases;
         for (k, v) in o.classes {
             *self.classes.entry(k).or_insert(0) += v;
         }
@@ -342,7 +346,7 @@ impl Report {
         // generator health: required classes
         let st = &self.outcome.stats;
         for (c, min) in self.required_classes.iter().filter(|_| violations == 0) {
-            let frac = st.class_count(c) as f64 / (st.evals.max(1) as f64);
+            let frac = st.class_count(c) as f64 / (st.cases.max(1) as f64);
             if frac < *min {
                 machinery += 1;
                 lines.push(format!(
@@ -362,6 +366,7 @@ impl Report {
         }
         let mut coverage = json!({
             "evaluations": st.evals,
+            "generated_cases": st.cases,
             "distinct_nontrivial": st.nontrivial.len(),
             "rule": self.rule,
             "samples": samples,
